@@ -25,6 +25,9 @@ FILES = ["vf_crm_verif_test.go"]
 DRV = "^TestVerifContactManager$"
 MON = ("MonContactManager", "Mon_ContactManager.cfg")
 CONF = ("TraceContactManager", "Trace_ContactManager.cfg")
+# development switch (never set by registered commands): validate against other choices of the model, e.g.
+# CRM_IMPL="ExitCancelsAny=FALSE,OfferIgnoresCancel=FALSE" after applying a proposed fix in a worktree
+DEV_IMPL = dict(kv.split("=") for kv in os.environ.get("CRM_IMPL", "").split(",") if "=" in kv)
 ROUTE_C07 = True          # K1-K3 rejects confirmed on a solo re-run become violations of the calling property (C07)
 IMPL = ["ExitCancelsAny", "OfferIgnoresCancel", "StartIgnoresClose", "LoopHandlesAfterClose", "BlockKeepsLookup"]
 # invariant the code's choices break -> (deviation it is explained by, the choices whose repair restores it)
@@ -151,6 +154,8 @@ def design_level(ctx, cm):
         mc("live_repaired", "MCL_ContactManager.cfg", {"ExitCancelsAny": "FALSE"}, workers=2)
     res = _parallel([f for _, f in jobs], 3 if quick else 4)
     for (name, _), r in zip(jobs, res):
+        if r.violated is None and re.search(r"Temporal propert\w+ .*violated", r.out):
+            r.violated, r.error = "temporal", None      # lib/vf.py only knows the older wording
         ctx.states += r.distinct
         ctx.transitions += r.generated
         rec = {"distinct": r.distinct, "generated": r.generated, "depth": r.depth, "wall_s": round(r.wall, 1), "violated": r.violated}
@@ -187,14 +192,16 @@ def gen(ctx):
         ("hist2", 2, ALLOPS, True, 3, True, 14, 40, 50),
         ("manual2", 2, ["en", "dis", "rs", "enq", "sent", "blk"], False, 1, False, 12, 40, 50),
         ("one", 1, ["enq", "blk", "unb", "sent", "en"], True, 0, False, 12, 40, 60),
+        ("switch", 2, ["en", "dis", "rs", "enq"], True, 2, False, 12, 30, 40),
         ("three", 3, ["enq", "en", "rs", "sent"], True, 1, False, 12, 25, 30),
     ]
     if quick:
-        plans = [(n, c, o, a, p, r, ml, 8, 6) for (n, c, o, a, p, r, ml, w, k) in plans[:4]]
+        plans = [(n, c, o, a, p, r, ml, 8, 6) for (n, c, o, a, p, r, ml, w, k) in plans[:5]]
     jobs = []
     for (name, nc, ops, auto, pre, refused, ml, walks, keep) in plans:
         consts = {"Contacts": _set("c%d" % (i + 1) for i in range(nc)), "OpKinds": _set(ops), "Auto": "TRUE" if auto else "FALSE",
                   "PreOps": str(pre), "WithRefused": "TRUE" if refused else "FALSE", "MaxLen": str(ml)}
+        consts.update(DEV_IMPL)
         jobs.append(lambda name=name, consts=consts, walks=walks, ml=ml: ctx.tlc(
             "GenContactManager", "Gen_ContactManager.cfg", name="crm_gen_" + name, workers=1, simulate="num=%d" % walks,
             depth=20 * ml, consts=consts, timeout=600, count=False, heap="4g"))
@@ -228,7 +235,8 @@ def _tlc_trace(ctx, mod, events, name, collect=False, strict=True, timeout=900):
     env = {"VERIF_TRACE": tp, "VERIF_STRICT": "1" if strict else "0"}
     if collect:
         env["VERIF_COLLECT"] = "1"
-    r = ctx.tlc(mod[0], mod[1], name=name, workers=1, env=env, timeout=timeout, allow_violation=True, count=False, heap="6g")
+    r = ctx.tlc(mod[0], mod[1], name=name, workers=1, env=env, timeout=timeout, allow_violation=True, count=False, heap="6g",
+                consts=DEV_IMPL if (DEV_IMPL and mod is CONF) else None)
     rej = r.printed.get("REJECTED")
     if r.violated is None and r.error is None and r.rc == 0 and not rej:
         return True, None, r
@@ -376,6 +384,10 @@ def run_part(ctx, replay_scripts=None):
         if o["explained_by"] is None:
             # an invariant the model of the code satisfies fails on the real code: drift, with the script
             ctx.drift.append({"trace": "contact_manager", "clause": c, "what": CLAUSE_TEXT[c], "script": o["first_script"]})
+    d3 = [(bid, i) for bid, evs in blocks for i, e in enumerate(evs) if e.get("st", {}).get("srv")]
+    if d3:
+        obs["D3"] = {"clause": "informational: the discovery server still serves an own point on which no announce is live (the swiper stops advertising but never unregisters; the registration lasts until its TTL)",
+                     "lines": len(d3), "scripts": len(set(b for b, _ in d3)), "explained_by": "D3", "first_script": _replay_text(sid[d3[0][0]])}
     cm["observations"] = obs
     ctx.distinct_nontrivial += len(set(b for (b, _, _, _) in bad))
 
